@@ -704,7 +704,7 @@ func run(c *vf.Ctx) {
 	c.RequireCounter("imports_added", 100)
 	c.RequireCounter("imports_removed", 100)
 	c.RequireCounter("needed_import_bindings_checked", 10000)
-	for _, k := range []string{"remove-needed", "add-unused", "reorder", "regroup", "alias-consistent", "alias-dangling", "alias-same", "dot-add", "dot-convert", "blank-add", "blank-convert", "blank-plus-plain", "duplicate", "remove-all", "add-needed-twice-paths", "layout"} {
+	for _, k := range []string{"remove-needed", "add-unused", "reorder", "regroup", "alias-consistent", "alias-dangling", "alias-same", "dot-add", "dot-convert", "blank-add", "blank-convert", "blank-plus-plain", "duplicate", "remove-all", "add-needed-twice-paths", "decl-named-like-import", "layout"} {
 		c.RequireCounter("mut_"+k, 15)
 	}
 }
